@@ -14,6 +14,7 @@ Not proved (measured by the correspondence, harness/c06.py): the `< 1e-9` relati
 IEEE evaluation; the principal ranges libm's `atan2`/`asin` return.
 -/
 import Midgard.Proofs.GeoReal
+import Midgard.Proofs.SourceTie
 import Midgard.Model.Rotation
 import Midgard.Generated.PositionSystems
 
@@ -514,6 +515,33 @@ example : IsRotation (enu2trsCS (3 / 5 : ℚ) (4 / 5) (5 / 13) (-12 / 13)) :=
 example : enuUpCS (3 / 5 : ℚ) (4 / 5) (5 / 13) (-12 / 13) = ⟨3 / 13, -36 / 65, 4 / 5⟩ := by
   simp only [enuUpCS, enu2trsCS, M3.col3]; norm_num
 
+
+/-! ### The model is the source (regenerated on every run)
+
+`Generated/SourceExprs.lean` is written by `translator/extract_exprs.py` from the Python `ast` of the tree under
+test: the arithmetic of the functions named below, statement by statement.  The theorems of this section say that the
+hand-written model definitions every other theorem of this file is about are, over the reals, *equal* to those
+regenerated definitions (composed with the hand-modelled branch selection where the source has control flow).  A
+change of the source arithmetic therefore breaks one of these (unless it is an algebraic identity over ℝ, which the
+fallback of the `src_tie` tactic — unfold, compare component by component with `ring_nf` — accepts). -/
+section Source
+open Midgard.Generated
+set_option linter.unusedTactic false
+set_option linter.unreachableTactic false
+set_option linter.unusedSimpArgs false
+set_option linter.unnecessarySeqFocus false
+
+theorem source_axis_rotations (c s : ℝ) :
+    Src.R1src c s = R1cs c s ∧ Src.R2src c s = R2cs c s ∧ Src.R3src c s = R3cs c s ∧
+    Src.dR1src c s = dR1cs c s ∧ Src.dR2src c s = dR2cs c s ∧ Src.dR3src c s = dR3cs c s := by
+  refine ⟨?_, ?_, ?_, ?_, ?_, ?_⟩ <;>
+    src_tie [Src.R1src, Src.R2src, Src.R3src, Src.dR1src, Src.dR2src, Src.dR3src, R1cs, R2cs, R3cs, dR1cs, dR2cs, dR3cs]
+theorem source_enu_matrices (cl sl co so : ℝ) :
+    Src.enu2trsSrc cl co sl so = enu2trsCS cl sl co so ∧ Src.trs2enuSrc cl co sl so = trs2enuCS cl sl co so := by
+  refine ⟨?_, ?_⟩ <;> src_tie [Src.enu2trsSrc, Src.trs2enuSrc, enu2trsCS, trs2enuCS]
+
+end Source
+
 end Midgard.Props.C06
 
 #print axioms Midgard.Props.C06.R1_rotation
@@ -553,3 +581,5 @@ end Midgard.Props.C06
 #print axioms Midgard.Props.C06.angles_of_unit_vector
 #print axioms Midgard.Props.C06.az_el_are_angles_of_triad
 #print axioms Midgard.Props.C06.registered_conversions
+#print axioms Midgard.Props.C06.source_axis_rotations
+#print axioms Midgard.Props.C06.source_enu_matrices
